@@ -27,9 +27,11 @@ pub enum Kind {
     SingleUse,
     /// single-use value followed by a repeatable one: `returns(v).once().then().returns(w)` (C12)
     SingleUseThen,
+    /// every call is erroneous (strict mock, no pattern accepts): errors race for the shared list (C08)
+    AllErrors,
 }
 
-pub const KINDS: [Kind; 5] = [Kind::UnorderedChain, Kind::Ordered, Kind::Mixed, Kind::SingleUse, Kind::SingleUseThen];
+pub const KINDS: [Kind; 6] = [Kind::UnorderedChain, Kind::Ordered, Kind::Mixed, Kind::SingleUse, Kind::SingleUseThen, Kind::AllErrors];
 
 #[derive(Clone, Debug, PartialEq, Eq, Hash, Serialize, Deserialize)]
 pub struct RaceCase {
@@ -39,6 +41,9 @@ pub struct RaceCase {
     /// ordered slots available (Ordered / Mixed)
     pub slots: u8,
     pub schedule: Vec<u8>,
+    /// threads call through one shared `&Unimock` (the original behind an Arc) instead of clones
+    #[serde(default)]
+    pub shared: bool,
 }
 
 fn pat(id: u16, chain: Vec<Seg>) -> PatternSpec {
@@ -97,6 +102,11 @@ pub fn clauses(case: &RaceCase) -> Vec<ClauseSpec> {
             entry: Entry::Some,
             pat: pat(6, vec![seg(Resp::Returns, Quant::Once), seg(Resp::Returns, Quant::None)]),
         }],
+        Kind::AllErrors => vec![ClauseSpec::Single {
+            method: 2,
+            entry: Entry::Each,
+            pat: PatternSpec { id: 8, mask: 0, matcher: MatcherKind::FuncDebug, chain: vec![seg(Resp::Answers, Quant::None)] },
+        }],
     }
 }
 
@@ -106,6 +116,8 @@ fn call_of(case: &RaceCase, t: usize, k: usize) -> (u8, u8) {
     match case.kind {
         Kind::Ordered => (0, arg),
         Kind::Mixed => (if (t + k) % 2 == 0 { 0 } else { 2 }, arg),
+        // alternate between an unmatched call and a call to an unmentioned method
+        Kind::AllErrors => (if (t + k) % 2 == 0 { 2 } else { 1 }, arg),
         _ => (2, arg),
     }
 }
@@ -127,21 +139,51 @@ pub fn execute(case: &RaceCase, schedule: &[u8]) -> Result<Executed, String> {
     let cl = clauses(case);
     let original = new_mock(false, &cl).map_err(|e| format!("HARNESS: construct {e}"))?;
     let mut bodies: Vec<Box<dyn FnOnce() -> Vec<Result<u32, String>> + Send>> = vec![];
-    for t in 0..case.threads as usize {
-        let clone: Unimock = original.clone();
-        let plan: Vec<(u8, u8)> = (0..case.calls as usize).map(|k| call_of(case, t, k)).collect();
-        bodies.push(Box::new(move || {
-            let clone = clone;
-            let mut out = vec![];
-            for (m, a) in plan {
-                out.push(catch(|| traits::call_shared(&clone, m, a)));
-            }
-            let _ = traits::take_log();
-            drop(clone);
-            out
-        }));
-    }
+    let shared_handle: Option<std::sync::Arc<Unimock>>;
+    let original = if case.shared {
+        let arc = std::sync::Arc::new(original);
+        for t in 0..case.threads as usize {
+            let handle = arc.clone();
+            let plan: Vec<(u8, u8)> = (0..case.calls as usize).map(|k| call_of(case, t, k)).collect();
+            bodies.push(Box::new(move || {
+                let mut out = vec![];
+                for (m, a) in plan {
+                    out.push(catch(|| traits::call_shared(&handle, m, a)));
+                }
+                let _ = traits::take_log();
+                drop(handle);
+                out
+            }));
+        }
+        shared_handle = Some(arc);
+        None
+    } else {
+        for t in 0..case.threads as usize {
+            let clone: Unimock = original.clone();
+            let plan: Vec<(u8, u8)> = (0..case.calls as usize).map(|k| call_of(case, t, k)).collect();
+            bodies.push(Box::new(move || {
+                let clone = clone;
+                let mut out = vec![];
+                for (m, a) in plan {
+                    out.push(catch(|| traits::call_shared(&clone, m, a)));
+                }
+                let _ = traits::take_log();
+                drop(clone);
+                out
+            }));
+        }
+        shared_handle = None;
+        Some(original)
+    };
     let run = sched::run(bodies, schedule);
+    let original = match (original, shared_handle) {
+        (Some(o), _) => o,
+        (None, Some(arc)) => match std::sync::Arc::try_unwrap(arc) {
+            Ok(o) => o,
+            Err(_) => return Err("HARNESS: a thread kept its handle to the shared mock".into()),
+        },
+        (None, None) => unreachable!(),
+    };
     if run.hung {
         let _ = catch(move || drop(original));
         return Err("HARNESS: watchdog: a scheduled thread did not get the token within 20 s".into());
@@ -230,7 +272,9 @@ pub fn check(case: &RaceCase) -> Result<CaseInfo, String> {
             Kind::Mixed => "mixed",
             Kind::SingleUse => "single-use",
             Kind::SingleUseThen => "single-use-then",
-        }))
+            Kind::AllErrors => "all-errors",
+        })
+        .class_if(case.shared, "shared-&Unimock"))
 }
 
 /// Exhaustive depth-first enumeration of all schedules of one configuration.
@@ -240,8 +284,8 @@ pub fn enumerate_config(name: &str, kinds: &[Kind], configs: &[(u8, u8)], limit:
     let mut per_config = vec![];
     'outer: for &kind in kinds {
         for &(threads, calls) in configs {
-            for slots in slot_variants(kind, threads, calls) {
-                let base = RaceCase { kind, threads, calls, slots, schedule: vec![] };
+            for (slots, shared) in slot_variants(kind, threads, calls).into_iter().flat_map(|s| [(s, false), (s, true)]) {
+                let base = RaceCase { kind, threads, calls, slots, schedule: vec![], shared };
                 let mut execs = 0u64;
                 let mut with_switches = 0u64;
                 let mut max_points = 0usize;
@@ -257,11 +301,11 @@ pub fn enumerate_config(name: &str, kinds: &[Kind], configs: &[(u8, u8)], limit:
                 rep.evaluations += execs;
                 // every schedule of an exhaustive enumeration is distinct by construction
                 for i in 0..with_switches {
-                    rep.nontrivial.insert(vcore::stable_hash(&(kind, threads, calls, slots, i)));
+                    rep.nontrivial.insert(vcore::stable_hash(&(kind, threads, calls, slots, shared, i)));
                 }
                 match r {
                     Ok(Some(n)) => per_config.push(serde_json::json!({
-                        "kind": format!("{kind:?}"), "threads": threads, "calls": calls, "slots": slots,
+                        "kind": format!("{kind:?}"), "threads": threads, "calls": calls, "slots": slots, "shared_handle": shared,
                         "schedules": n, "complete": true, "yield_points": max_points })),
                     Ok(None) => {
                         rep.exhaustive = false;
@@ -309,7 +353,7 @@ pub fn stress(ctx: &Ctx) -> SubReport {
         let threads = 16u8;
         let calls = 40u8;
         for kind in [Kind::UnorderedChain, Kind::Ordered, Kind::SingleUseThen] {
-            let case = RaceCase { kind, threads, calls: if kind == Kind::Ordered { 12 } else { calls }, slots: 190, schedule: vec![round as u8] };
+            let case = RaceCase { kind, threads, calls: if kind == Kind::Ordered { 12 } else { calls }, slots: 190, schedule: vec![round as u8], shared: round % 2 == 1 };
             match stress_once(&case) {
                 Ok(()) => {
                     let info = CaseInfo::new(true).class("stress");
@@ -382,7 +426,8 @@ fn case_strategy() -> impl Strategy<Value = RaceCase> {
             let kind = KINDS[k];
             let v = slot_variants(kind, threads, calls);
             let slots = if fewer { *v.last().unwrap() } else { v[0] };
-            RaceCase { kind, threads, calls, slots, schedule }
+            let shared = schedule.first().map(|b| b % 2 == 1).unwrap_or(false);
+            RaceCase { kind, threads, calls, slots, schedule, shared }
         })
 }
 
